@@ -276,7 +276,7 @@ def extra_checks(corpus, tier, model, impl):
     st = {"what": extra_checks.__doc__.strip().replace("\n    ", " "), "definitions_checked": 0, "identical": 0, "not_readable": 0, "different": [],
           "status": "ok"}
     STRUCT.update(st)
-    shards = range(8) if tier == "thorough" else (0, 1)
+    shards = range(8)
     mods, problems = R.real_expansion(ID.lower(), shards)
     if problems:
         STRUCT["status"] = "expansion unavailable: " + "; ".join(problems)[:400]
